@@ -170,3 +170,57 @@ Definition c06_check (k : c06case) : bool :=
 (* what the model says on a case (printed for disagreeing cases) *)
 Definition c06_model_flags (k : c06case) : res (list bool) :=
   '(cs, _, _) <- c06_run k ;; Ok (map evaluated cs).
+
+(* ================================================================ guard traces of the scalar formulas
+   (Model/RealFormulas.v).  The driver traces the locals of PM.pm_mutation, SBX.sbx_crossover and
+   NonUniformMutation._delta in the REAL run; every traced guard quantity is checked against the
+   model's step applied to the traced inputs of that step (so no rounding error is carried from
+   one step to the next) up to a relative 2^-44, and against the range the theorems prove for it.
+   [p] is the value of the power the code takes at that point (recomputed by the driver from the
+   traced base with the same float operation). *)
+From Coq Require Import Qabs.
+From PV Require Import Model.RealFormulas.
+Open Scope Q_scope.
+
+Definition gtol : Q := 1 # (2 ^ 44).
+Definition qclose (a b : Q) : bool :=
+  Qle_bool (Qabs (a - b)) (gtol * (if Qle_bool 1 (Qabs a) then Qabs a else 1)).
+Definition in01 (q : Q) : bool := Qle_bool 0 q && Qle_bool q 1.
+Definition res_close (r : res Q) (v : Q) : bool := match r with Ok q => qclose q v | Err _ => false end.
+
+Inductive gcase :=
+  (* lo = (u < 0.5);  traced: dx, frac (bl / bu), b *)
+  | GPM (lo : bool) (x lb ub u eta p dx frac b : Q)
+  (* SBX not recombined: abs(x2 - x1) <= EPSILON *)
+  | GSBX0 (x1 x2 : Q)
+  (* one side of a recombination; upper = the ub side; bnd = lb / ub; first = the `rand <= 1/alpha` branch;
+     traced: beta, alpha (= 2 - p), arand (= alpha*rand), base (= arand, or 1/(2 - arand)) *)
+  | GSIDE (upper : bool) (x1 x2 y1 y2 bnd rand eta p : Q) (first : bool) (beta alpha arand base : Q)
+  (* NonUniformMutation._delta: traced fraction *)
+  | GNUM (nfe swarm maxit fraction : Q).
+
+Definition g06_check (g : gcase) : bool :=
+  match g with
+  | GPM lo x lb ub u eta p dx frac b =>
+      Bool.eqb lo (Qltb u (1 # 2)) && Qle_bool 0 u && Qltb u 1 && Qle_bool 0 eta
+      && qclose (ub - lb) dx && Qltb 0 dx
+      && res_close (pm_fraction (if lo then x - lb else ub - x) dx) frac && in01 frac
+      && in01 p
+      && qclose (if lo then pm_base_lo u p else pm_base_hi u p) b && in01 b
+  | GSBX0 x1 x2 => negb (sbx_test x1 x2)
+  | GSIDE upper x1 x2 y1 y2 bnd rand eta p first beta alpha arand base =>
+      sbx_test x1 x2
+      && Qeq_bool y1 (if Qltb x1 x2 then x1 else x2) && Qeq_bool y2 (if Qltb x1 x2 then x2 else x1)
+      && Qltb EPSILON (y2 - y1)
+      && Qle_bool 0 rand && Qltb rand 1 && Qle_bool 0 eta
+      && res_close (sbx_beta (if upper then bnd - y2 else y1 - bnd) (y2 - y1)) beta
+      && Qle_bool 0 beta && Qle_bool beta 1
+      && in01 p
+      && qclose (sbx_alpha p) alpha && Qle_bool 1 alpha && Qle_bool alpha 2
+      && match sbx_first_branch rand alpha with Ok f => Bool.eqb f first | Err _ => false end
+      && qclose (sbx_arand alpha rand) arand && Qle_bool 0 arand && Qltb arand 2
+      && (if first then qclose arand base && Qle_bool base 1 else res_close (sbx_inv arand) base && Qltb 0 base)
+      && Qle_bool 0 base
+  | GNUM nfe swarm maxit fraction =>
+      res_close (num_fraction nfe swarm maxit) fraction && in01 fraction
+  end.
